@@ -68,6 +68,15 @@ func (c *FnCtx) inline(st *State, fn *ssa.Function, args []*Term, ghost bool) []
 		fr.regs[p] = args[i]
 		fr.params = append(fr.params, args[i])
 	}
+	if len(fn.FreeVars) > 0 {
+		if len(c.pendingBindings) != len(fn.FreeVars) {
+			unsupported("closure %s without bindings", fn)
+		}
+		for i, fv := range fn.FreeVars {
+			fr.regs[fv] = c.pendingBindings[i]
+		}
+		c.pendingBindings = nil
+	}
 	c.stack = append(c.stack, fn)
 	defer func() { c.stack = c.stack[:len(c.stack)-1] }()
 	c.runFrame(fr, st.clone())
@@ -330,6 +339,10 @@ func (c *FnCtx) freshResults(st *State, cc *ssa.CallCommon, hint string) []*Term
 }
 
 func (c *FnCtx) staticCall(fr *Frame, st *State, x *ssa.Call, callee *ssa.Function, cc *ssa.CallCommon, bindings []SymVal) {
+	if callee.Pkg == c.eng.ld.SSA && (callee.Name() == "verifForall" || callee.Name() == "verifExists") && c.eng.isGhostFn(callee) {
+		fr.regs[x] = c.quantifier(fr, st, callee.Name() == "verifForall", fr.val(cc.Args[0]).(*Term), fr.val(cc.Args[1]))
+		return
+	}
 	var args []*Term
 	sig := callee.Signature
 	off := 0
@@ -348,7 +361,11 @@ func (c *FnCtx) staticCall(fr *Frame, st *State, x *ssa.Call, callee *ssa.Functi
 		return
 	}
 	if len(bindings) > 0 || len(callee.FreeVars) > 0 {
-		unsupported("call of closure %s", callee)
+		if !c.eng.isGhostFn(callee) {
+			unsupported("call of closure %s", callee)
+		}
+		c.setResult(fr, x, c.inlineClosure(st, callee, args, bindings))
+		return
 	}
 	if c.eng.isGhostFn(callee) {
 		if res, ok := c.ghostIntrinsic(fr, st, callee, args); ok {
@@ -590,4 +607,43 @@ func (c *FnCtx) builtin(fr *Frame, st *State, x *ssa.Call, b *ssa.Builtin) {
 	default:
 		unsupported("builtin %s", b.Name())
 	}
+}
+
+// inlineClosure inlines an anonymous ghost function with its captured variables.
+func (c *FnCtx) inlineClosure(st *State, fn *ssa.Function, args []*Term, bindings []SymVal) []*Term {
+	c.pendingBindings = bindings
+	return c.inline(st, fn, args, true)
+}
+
+// quantifier: verifForall(n, func(i int) bool { ... })  ==  forall i. 0 <= i < n  =>  body(i)
+func (c *FnCtx) quantifier(fr *Frame, st *State, universal bool, n *Term, fv SymVal) *Term {
+	ts := c.eng.ts
+	f, ok := fv.(*FuncVal)
+	if !ok || f.fn == nil {
+		unsupported("quantifier body must be a function literal")
+	}
+	bv := ts.Bound("i", SInt)
+	work := st.clone()
+	nf := len(c.facts)
+	c.noObl++
+	var body []*Term
+	if len(f.bindings) > 0 {
+		body = c.inlineClosure(work, f.fn, []*Term{bv}, f.bindings)
+	} else {
+		body = c.inline(work, f.fn, []*Term{bv}, true)
+	}
+	c.noObl--
+	// facts generated while evaluating the body may mention the bound variable: they hold for every index in
+	// range, so they are re-stated as separate universally quantified facts (polarity independent)
+	rng := ts.And(ts.Le(ts.Int(0), bv), ts.Lt(bv, n))
+	for i := nf; i < len(c.facts); i++ {
+		if ts.mentions(c.facts[i], bv) {
+			c.facts[i] = ts.Quant("forall", bv, ts.Implies(rng, c.facts[i]))
+		}
+	}
+	if universal {
+		return ts.Quant("forall", bv, ts.Implies(rng, body[0]))
+	}
+	b := ts.And(rng, body[0])
+	return ts.Quant("exists", bv, b)
 }
